@@ -77,8 +77,11 @@ def make (spec0):
             if rng.random () < 0.12 and nd not in missed:
                 cls = 'miss'
                 missed.add (nd)
-                d   = float (rng.choice ([2.0, 10.0])) * tol
+                d   = float (rng.choice ([1.3, 2.0, 10.0])) * tol
             u = unit (rng)
+            if cls == 'miss' and d < 1.5 * tol:
+                # farther than the tolerance as a distance, closer than it in every single coordinate
+                u = np.array ([float (rng.choice ([-1, 1])) for k in range (3)]) / np.sqrt (3)
             if isg:
                 if cls == 'miss':
                     u = np.array ([0, 0, 1.0])
